@@ -1168,6 +1168,12 @@ impl<'a> GeneratorState<'a> {
     }
 
     fn generate_csleep_statement(&mut self, cycles: i32, pos: usize) -> Result<(), Error> {
+        if matches!(cycles, 3 | 5 | 9 | 10) && !self.compiler_state.variables.contains_key("DUMMY") {
+            return Err(self.compiler_state.syntax_error(
+                "This cycle sleep value needs a variable named DUMMY",
+                pos,
+            ));
+        }
         // Like the NOPs, the accesses to DUMMY are there for their duration only
         self.protected = true;
         let res = self.generate_csleep_instructions(cycles, pos);
